@@ -20,6 +20,12 @@ def key_fn(case, obs, verdict):
         return "configured-gun:%s:auto-tag-%s:sample-fields" % (f[1], f[2])
     if f[0] == "gjson":
         return "grpc-json-provider:sample-tag-of-other-ammo"
+    if f[0] == "ammo":
+        # which part of the samples differs from what the file says
+        ot = [w.split(":")[0] for w in obs.split(" ") if w.count(":") == 2]
+        wt = [w.split(":")[0] for w in verdict.replace("BAD:expected ", "").split(" ") if w.count(":") == 2]
+        what = "ids" if "ids" in verdict and "expected" not in verdict else ("sample-tag" if ot != wt else "sample-fields")
+        return "ammo-file:%s:%s" % (f[1], what)
     if f[0] == "phout":
         return "phout-aggregator:recycled-sample-codes"
     if f[0] in ("hscen", "gscen", "gshoot"):
